@@ -339,13 +339,20 @@ def rule_lazy(repo, rule):
 
 
 def rule_unguarded_emissions(repo, r6):
-    from .c01 import emission_sites, site_results, RT as _RT
+    from .c01 import emission_sites, site_results, mentions_guard, RT as _RT
     for fi, call, kind in emission_sites(repo):
         if kind != "direct" or fi.fq == _RT + ":add_constraint":
             continue
         res = site_results(fi, call, (), honest_premise=False)
-        bad = [(d, p) for _path, cases in res for d, p, _v in cases if not isinstance(p, str) and not p.is_zero()]
-        und = [p for _path, cases in res for d, p, _v in cases if isinstance(p, str)]
+        if any(not isinstance(p, str) and not p.is_zero() for _pa, cases in res for _d, p, _v in cases):
+            # written on the guard wire itself (guard * y = 0), or emitted by code that looks at whether a guard is installed:
+            # what matters here is the branch that is not taken, i.e. an installed guard of value 0
+            res = site_results(fi, call, (), honest_premise=False, guard_value=0)
+        opaque = lambda p: any(str(s_).startswith("?") for s_ in p.symbols())
+        bad = [(d, p) for _path, cases in res for d, p, _v in cases if not isinstance(p, str) and not p.is_zero() and not opaque(p)]
+        und = [p for _path, cases in res for d, p, _v in cases if isinstance(p, str)] + [
+            "not interpretable: v*w - y = %s" % p for _path, cases in res for d, p, _v in cases
+            if not isinstance(p, str) and not p.is_zero() and opaque(p)]
         term = norm(call)
         if bad:
             d, p = bad[0]
